@@ -47,7 +47,7 @@ var (
 
 var alphabet = []string{"", "0", "1", "-1", "2", "a", "k", "*", "(1", "nx", "xx", "ch", "incr", "ex", "px",
 	"limit", "byscore", "withscores", "count", "rank", "maxlen", "minid", "left", "right",
-	"~", "=", "5-1", "9223372036854775807", "-9223372036854775808", "1e400", "nan", "\x00", "get"}
+	"~", "=", "5-1", "9223372036854775807", "-9223372036854775808", "1e400", "nan", "\x00", "get", "9223372036854775808", "18446744073709551615"}
 
 // per-command option words used beyond arity 3
 var optionWords = map[string][]string{
@@ -61,6 +61,9 @@ var optionWords = map[string][]string{
 	"expire":     {"nx", "xx", "gt", "lt", "0", "100000"},
 	"lmove":      {"left", "right", "kl", "k2"},
 }
+
+// commands whose first argument is not a key name get the whole alphabet in that position
+var nonKeyFirst = map[string]bool{"select": true, "ping": true, "keys": true, "rconf": true, "member": true, "publish": true, "subscribe": true}
 
 var common5 = []string{"", "0", "-1", "a", "9223372036854775807"}
 
@@ -123,6 +126,9 @@ func enumerate(name string, thorough bool, f func(argv []string)) {
 		switch {
 		case depth == 0:
 			choices = presetKeys
+			if nonKeyFirst[name] {
+				choices = append(append([]string{}, presetKeys...), alphabet...)
+			}
 		case depth == 1 || (thorough && depth == 2):
 			choices = alphabet
 		case depth == 2:
@@ -560,7 +566,7 @@ func main() {
 			"evaluations":         agg.Inputs + tcpSent,
 			"distinct_nontrivial": len(agg.Kinds),
 			"rule": "every registered command (from memdb.CmdTable, minus verif.*) x arity 0..N x first argument in {missing key, one key of each of the six types} x adversarial alphabet " +
-				"(full 33-symbol alphabet up to arity 3, command option words + extremes beyond); each input on a fresh preset keyspace under recover, then try-lock sweep of all stripes and probes on the same and another key; " +
+				"(full 35-symbol alphabet up to arity 3, command option words + extremes beyond); each input on a fresh preset keyspace under recover, then try-lock sweep of all stripes and probes on the same and another key; " +
 				"distinct = distinct (command, reply kind) pairs observed; TCP: sampled inputs against the real binary with same-connection, same-key, per-stripe and fresh-connection probes",
 			"samples":              []any{[]string{"SETRANGE", "ks", "9223372036854775807", "a"}, []string{"ZADD", "kz", "ch", "incr", "nan", "m"}, []string{"XADD", "kx", "maxlen"}},
 			"exhaustive":           inconclusive == "",
